@@ -190,6 +190,30 @@ func c13NearMisses() []c13Input {
 			out = append(out, c13Input{key: fmt.Sprintf("nearmiss/%s/%d", call, i), files: map[string]string{"main.tsh": pre + strings.ReplaceAll(t, "$X", call) + "\n"}})
 		}
 	}
+	// arithmetic, comparison and logic on constants only (what a folding pass would compute at transpile time):
+	// every operator x extreme and zero operands, plain, grouped and as operands of a further operation
+	{
+		ints := []string{"0", "1", "-1", "2", "10", "9223372036854775807", "-9223372036854775808", "-9223372036854775807", "4294967296", "2147483648", "-2147483648"}
+		n := 0
+		for _, op := range []string{"+", "-", "*", "/", "%", "==", "<", ">="} {
+			for _, a := range ints {
+				for _, b := range ints {
+					n++
+					forms := []string{"x := " + a + " " + op + " " + b + "\nprint(x)\n"}
+					if b == "0" || a == "-9223372036854775808" || n%7 == 0 {
+						forms = append(forms, "x := ("+a+") "+op+" ("+b+")\nprint(x)\n", "x := 7 "+op+" (3 - 3) + ("+a+" "+op+" "+b+")\n", "if "+a+" "+op+" "+b+" == "+a+" "+op+" "+b+" {\n}\n",
+							"s := []int{1, 2}\nprint(s["+a+" "+op+" "+b+"])\n", "func f() {\n\tfor i := "+a+" "+op+" "+b+"; i < 1; i++ {\n\t}\n}\n")
+					}
+					for fi, f := range forms {
+						out = append(out, c13Input{key: fmt.Sprintf("nearmiss/constant-operands/%s/%s/%s/%d", op, a, b, fi), files: map[string]string{"main.tsh": f}})
+					}
+				}
+			}
+		}
+		for i, f := range []string{"x := !true && !false || true == false\n", "x := \"\" + \"\" == \"\"\n", "x := \"a\" + \"b\" + \"\"\n", "x := len(\"\") / len(\"\")\n", "x := 1 / len(\"\")\n", "x := itoa(1 / 0)\n", "x := \"abc\"[3 - 3]\n", "x := \"abc\"[1 - 2]\n", "x := \"abc\"[5:2]\n", "x := []int{}[0]\n", "x := 5 % (2 - 2)\n", "x := -9223372036854775808 / -1\n", "x := -9223372036854775808 % -1\n"} {
+			out = append(out, c13Input{key: fmt.Sprintf("nearmiss/constant-expressions/%d", i), files: map[string]string{"main.tsh": f}})
+		}
+	}
 	// files that end right after a given token (no blank, no line break), alone on the last line and after an operand
 	for ti, tk := range c13Replacements {
 		if tk == "\n" {
